@@ -265,7 +265,10 @@ def gen_file(rng, maxcues=3, empty_cue=0.04):
       out += ["REGION", "id:fred", "width:40%", "lines:3", ""]
       feat["region_block"] = True
     if rng.random() < 0.35:
-      out.append(rng.choice(["1", "42", "cue-id", "intro - part 1", "b", "123abc"]))
+      # identifiers may begin with the letters of a block keyword without being one (NOTE / STYLE / REGION are keywords only
+      # when alone on the line or followed by white space)
+      out.append(rng.choice(["1", "42", "cue-id", "intro - part 1", "b", "123abc", "NOTE-2", "NOTE:3", "NOTES", "NOTE1", "NOTE.x [music]",
+                             "note", "STYLE-1", "STYLEsheet", "REGIONAL news", "REGION_2"]))
       feat["cue_id"] = True
     kind = rng.choice(["boundary", "any", "any"])
     gap = rng.choice(BOUNDARY_MS) if kind == "boundary" else rng.randint(0, 4000)
